@@ -1,18 +1,24 @@
 #!/bin/bash
-# Build the overlay and the worker binary from /repo's current working tree.
-# usage: build.sh <scratch-dir> [race]
+# Build the overlay and the worker binary from the repository's current
+# working tree. usage: build.sh <scratch-dir> [race]
 set -e
-export GOTOOLCHAIN=local GOFLAGS=-mod=mod GOPROXY=off GOCACHE=/verif/.gocache
+HERE="$(cd "$(dirname "${BASH_SOURCE[0]}")" && pwd)"
+export GOTOOLCHAIN=local GOFLAGS=-mod=mod GOPROXY=off GOCACHE="${VERIF_GOCACHE:-/verif/.gocache}"
 GO=/root/go/pkg/mod/golang.org/toolchain@v0.0.1-go1.25.0.linux-amd64/bin/go
 if [ ! -x "$GO" ]; then GO=go1.26.8; fi
 SCR="$1"; RACE="$2"
 REPO="${VERIF_REPO:-/repo}"
-mkdir -p "$SCR" /verif/bin
-if [ ! -x /verif/bin/ovgen ] || [ /verif/cmd/ovgen/main.go -nt /verif/bin/ovgen ]; then
-  (cd /verif && $GO build -o /verif/bin/ovgen ./cmd/ovgen)
-fi
-/verif/bin/ovgen -repo "$REPO" -shim /verif/shim -out "$SCR/ov"
-cd /verif/harness
+mkdir -p "$SCR"
+(cd "$HERE" && $GO build -o "$SCR/ovgen" ./cmd/ovgen)
+"$SCR/ovgen" -repo "$REPO" -shim "$HERE/shim" -out "$SCR/ov"
+# The worker module is copied next to a go.mod whose replace points at the
+# repository under test.
+mkdir -p "$SCR/h"
+cp "$HERE"/harness/*.go "$SCR/h/"
+cp "$REPO/go.sum" "$SCR/h/go.sum"
+cat "$HERE/harness/go.sum.extra" >> "$SCR/h/go.sum" 2>/dev/null || true
+sed "s#=> /repo#=> $REPO#" "$HERE/harness/go.mod" > "$SCR/h/go.mod"
+cd "$SCR/h"
 if [ "$RACE" = race ]; then
   $GO test -c -race -overlay "$SCR/ov/overlay.json" -tags verif -vet=off -o "$SCR/harness.race.test" .
 else
